@@ -18,6 +18,8 @@ def classify_crash(cr):
     return ('C12', cr['kind'])
 
 
+WRAPS = ['make_lp', 'delete_lp', 'add_constraint', 'del_constraint', 'resize_lp', 'set_obj', 'set_obj_fn', 'set_minim', 'set_maxim', 'set_unbounded', 'solve']
+
 SPEC = {
     'id': 'C12',
     'lean_modules': ['AITB.Props.C12Spec', 'AITB.Props.C12Interp', 'AITB.Props.C12InterpOpt', 'AITB.Props.C12CheckSound', 'AITB.Props.C12PruneStrong', 'AITB.Props.C12InterpValue', 'AITB.Props.C12UsefulPoints', 'AITB.Props.C12Strict', 'AITB.Props.C12LpCert', 'AITB.Props.C12SawGuard'],
@@ -71,6 +73,7 @@ SPEC = {
         'AITB.Interp.sawtooth_defined_of_nonempty', 'AITB.Interp.sawtooth_none_only_if_empty',
     ],
     'harness': 'harness/c12.cpp',
+    'harness_flags': ['-Wl,--wrap=' + w for w in WRAPS],
     'level': 'proof',
     'timeout': {'quick': 420, 'thorough': 2400},
     'case_timeout': 60,
